@@ -1245,6 +1245,7 @@ func (j *c05Judge) judgeKnown(recv c05Recv, uRecv cty.Value, calls []c05Call, re
 	if panicAt == -1 && !res.RawEquals(recv.v) {
 		j.fail("known-is-assertion", "known-changed:"+tk, "refining a known value returned a different value", recv, calls, encVal(res))
 	}
+	c05d05bJointLength(j, recv, uRecv, calls, panicAt) // slice d05b: accepted length constraints hold JOINTLY of some possible length
 	// the concrete values the known receiver stands for, among the samples
 	var mine []c05Sample
 	for _, x := range samples {
